@@ -9,6 +9,8 @@
   witness, and proved under an explicit hypothesis (`…_partial`).
 -/
 import YkProofs.Reload
+import YkProofs.ReloadMark
+import YkProofs.ReloadParts
 namespace Yk.C16
 open Yk Yk.Reload
 
@@ -55,6 +57,29 @@ theorem rejected_changes_nothing_refuted : ¬ RejectedChangesNothing := by
   have := h exCluster (configUpdate exCluster true true "v2" exBadUpdate).1 true true "v2" exBadUpdate CErr.tpl (by decide) (by decide)
   revert this
   decide
+
+/-! ### several partitions: what does hold -/
+
+/-- When the loop of updateSchedulerConfig gets through a list of partitions (distinct names), each of them ends exactly
+    as the update with that partition ALONE would leave it (and that single update succeeds). -/
+theorem partitions_updated_as_single (conf : List PC) (cl cl1 : Cluster) (hd : namesDistinct conf)
+    (h : updateCluster cl conf = (cl1, none)) :
+    ∀ pc ∈ conf, cl1.get pc.name = (updateCluster cl [pc]).1.get pc.name ∧ (updateCluster cl [pc]).2 = none :=
+  updateCluster_each_as_single conf cl cl1 hd h
+
+/-- … and every partition the list does not name is as it was. -/
+theorem partitions_not_named_untouched (conf : List PC) (cl : Cluster) (m : String) (h : ∀ pc ∈ conf, ¬ m = pc.name) :
+    (updateCluster cl conf).1.get m = cl.get m :=
+  updateCluster_get_other conf cl m h
+
+/-- A refused update with several partitions: either nothing changed, or the cluster is EXACTLY what the loop over the
+    partitions before the refused one left (by the two theorems above: each of those updated as it would be alone, every
+    other partition — the refused one and all after it — untouched), and the configuration in force stays the old one. -/
+theorem rejected_update_is_prefix_update (s s' : CState) (viaEvent valid : Bool) (text : String) (conf : List PC) (e : CErr)
+    (hwf : ∀ pc ∈ conf, confWF pc.queues = true) (h : configUpdate s viaEvent valid text conf = (s', some e)) :
+    s' = s ∨ ∃ pre pc rest, conf = pre ++ pc :: rest ∧ updateCluster s.cluster pre = (s'.cluster, none) ∧
+      (stepPartition s'.cluster pc).2 = some e ∧ s'.text = s.text :=
+  configUpdate_rejected_multi s s' viaEvent valid text conf e hwf h
 
 /-- The identical configuration (same text, event path): nothing is touched. -/
 theorem identical_configuration_is_noop (s : CState) (conf : List PC) : configUpdate s true true s.text conf = (s, none) := by
@@ -176,6 +201,38 @@ theorem missing_queues_drain (t t' : Tree) (conf : List QC) (h : updateTree t co
     ∀ x q, t'.find x = some q → q.managed = true → configured conf x = false → ¬ q.state = .active :=
   updateTree_missing t t' conf h
 
+/-! ### the marking walk itself -/
+
+/-- Queue.MarkQueueForRemoval as the code walks (`markRec`: the unvisited children of every visited queue, then DOWN
+    through the children of each managed queue, stopping at an unmanaged one) marks exactly the managed queues the
+    configuration does not name (`markMissing`) — on every well-formed tree: parents first and present with distinct
+    non-empty paths, nothing managed below an unmanaged queue (W0), the configuration closed under parents and naming the top. -/
+theorem mark_walk_is_characterisation (t : Tree) (conf : List QC) (hpf : parentsFirst t = true) (hw0 : W0 t)
+    (hclosed : ∀ q ∈ t, configured conf q.path = true → q.parent = "" ∨ configured conf q.parent = true)
+    (hroot : ∀ q ∈ t, q.parent = "" → configured conf q.path = true) :
+    markRec t conf = markMissing t conf :=
+  markRec_eq_markMissing t conf hpf hw0 hclosed hroot
+
+/-- Hence the whole update with the walk as performed is the update all the other theorems are about. -/
+theorem update_walk_is_characterisation (t : Tree) (conf : List QC) (h : TreeOK t) (hwf : confWF conf = true) (hcp : confPaths conf = true)
+    (htop : ∀ q ∈ t, q.parent = "" → configured conf q.path = true) : updateTreeRec t conf = updateTree t conf :=
+  updateTreeRec_eq_updateTree t conf h hwf hcp htop
+
+/-- W0 is an invariant, not an assumption: every tree the modelled operations can produce (fresh load, updates — accepted
+    or stopped by an error, with either marking —, the queue cleaner, creation of a dynamic queue by a submission, anything
+    that leaves path / parent / managed alone) is well-formed; in particular nothing managed sits below an unmanaged queue. -/
+theorem w0_reachable (t : Tree) (h : Reachable t) : TreeOK t := reachable_ok t h
+
+theorem w0_invariant (t : Tree) (h : Reachable t) : W0 t := (reachable_ok t h).w0
+
+/-- Depth clause: after an accepted update (walk as performed) EVERY managed queue the configuration does not name — at
+    whatever depth of a dropped hierarchy — has taken the Remove event: Active and Draining queues are Draining. -/
+theorem dropped_hierarchy_drains_at_every_level (t t' : Tree) (conf : List QC) (h : TreeOK t) (hwf : confWF conf = true)
+    (hcp : confPaths conf = true) (htop : ∀ q ∈ t, q.parent = "" → configured conf q.path = true)
+    (hupd : updateTreeRec t conf = (t', none)) :
+    ∀ x q, t.find x = some q → q.managed = true → configured conf x = false → t'.find x = some q.mark :=
+  updateTreeRec_dropped t t' conf h hwf hcp htop hupd
+
 /-- A dynamic queue the configuration does not name is left exactly as it was. -/
 theorem dynamic_queues_untouched (t t' : Tree) (conf : List QC) (h : updateTree t conf = (t', none)) :
     ∀ x q, t.find x = some q → q.managed = false → configured conf x = false → t'.find x = some q :=
@@ -261,6 +318,19 @@ example : admits (updateTree exTree exConf).1 "root.a" true = false ∧ admits (
 example : ((clean (updateTree exTree exConf).1).find "root.a").isSome = true := by decide
 example : (clean ((updateTree exTree exConf).1.upd "root.a" (fun q => { q with apps := [] }))).find "root.a" = none := by decide
 example : ((updateTree (updateTree exTree exConf).1 [exRootC, exLeafC "a" 2]).1.find "root.a").map (·.state) = some .active := by decide
+/-- a hierarchy three levels deep (root.a > root.a.b > root.a.b.c) with a dynamic queue below it is dropped: every managed
+    level is Draining after the walk, the dynamic queue is not touched, and the walk agrees with the characterisation -/
+def exDeepConf : List QC :=
+  [exRootC, { exLeafC "a" 0 with isParent := true },
+   { exLeafC "a" 0 with path := "root.a.b", parent := "root.a", name := "b", isParent := true },
+   { exLeafC "a" 0 with path := "root.a.b.c", parent := "root.a.b", name := "c" }]
+def exDeepTree : Tree :=
+  (applyAll [] exDeepConf).1 ++
+    [{ (blank { exLeafC "a" 0 with path := "root.a.b.dyn", parent := "root.a.b", name := "dyn" }) with leaf := true, managed := false }]
+example : parentsFirst exDeepTree = true ∧ w0 exDeepTree = true ∧ pathParents exDeepTree = true ∧ confPaths exDeepConf = true := by decide
+example : ((updateTreeRec exDeepTree [exRootC]).1.map (fun q => (q.path, q.state))) =
+    [("root", .active), ("root.a", .draining), ("root.a.b", .draining), ("root.a.b.c", .draining), ("root.a.b.dyn", .active)] := by decide
+example : updateTreeRec exDeepTree [exRootC] = updateTree exDeepTree [exRootC] := by decide
 /-- a single-partition update that the loader refuses after the validator let it through: answered with an error, nothing changed -/
 example : configUpdate exCluster true true "v2" [exPC "d" [exRootC, { exLeafC "a" 7 with aclBad := true }]] = (exCluster, some .acl) := by decide
 
